@@ -11,8 +11,8 @@ Model of the caches of py-pde (property C04).  Core Lean only.
       `hash(inf)`, the complex combination, `hash('') = hash(b'') = 0`, ASCII `str` and
       `bytes` with the same bytes hash alike; lists and tuples hash alike.
       The derivation is parametrised by `Deriv`: `Deriv.cur` is the code as it is now
-      (the `__dict__` fallback includes the class name - fix F1; numbers other than `bool`
-      are keyed by `(class name, repr)` - fix A; arrays by `(dtype.str, shape, tobytes())`
+      (the `__dict__` fallback includes the class name - fix F1; numbers are keyed by the
+      text of their exact value - fix A; arrays by `(dtype.str, shape, tobytes())`
       - fix B; `GridBase._cache_hash` hashes its tuple through `hash_mutable` - fix D);
       switching one flag off gives the derivation before the respective fix (used for the
       regression witnesses).
@@ -29,12 +29,14 @@ namespace PdeVerif.Cache
 
 /-! ## (i) object graphs -/
 
-/-- the value of a number: finite real `m * 2^e` (`int`: `e = 0`), infinity, finite complex
-`(rm*2^re) + (im*2^ie) j`, or a NaN (hashed by identity by the builtin `hash`) -/
+/-- the value of a number: finite real `m * 2^e` (`int`, `bool`: `e = 0`; a complex number with
+zero imaginary part counts as its real part), infinity, a complex number with non-zero imaginary
+part `(rm*2^re) + (im*2^ie) j` together with the text `repr(complex(x) + 0.0)`, or a NaN (hashed
+by identity by the builtin `hash`) -/
 inductive NumVal where
   | fin (m e : Int)
   | inf (neg : Bool)
-  | cplx (rm re im ie : Int)
+  | cplx (rm re im ie : Int) (txt : String)
   | nan (ident : Nat)
 deriving Repr, DecidableEq, Inhabited
 
@@ -42,9 +44,9 @@ deriving Repr, DecidableEq, Inhabited
 inductive PyObj where
   /-- `None` -/
   | none
-  /-- `bool` (also `numpy.bool_`): not handled by the number branch -/
+  /-- `numpy.bool_`: not a `numbers.Number`, hashed by the builtin `hash` -/
   | bool (b : Bool)
-  /-- a `numbers.Number` other than `bool`: class `__name__`, `repr(obj)` and its value -/
+  /-- a `numbers.Number` (including Python's `bool`): class `__name__`, `repr(obj)`, value -/
   | num (cls : String) (repr : String) (v : NumVal)
   | str (s : String)
   /-- `bytes` given by the byte values -/
@@ -167,8 +169,31 @@ def strKey (s : String) : Key :=
 def pyHashVal : NumVal → Leaf
   | .fin m e => .int (pyHashNum m e)
   | .inf neg => .int (pyHashInf neg)
-  | .cplx rm re im ie => .int (pyHashComplex (pyHashNum rm re) (pyHashNum im ie))
+  | .cplx rm re im ie _ => .int (pyHashComplex (pyHashNum rm re) (pyHashNum im ie))
   | .nan ident => .ident ident
+
+/-- number of factors 2 that can be cancelled between `m` and `2^k` -/
+def cancel2 : Nat → Int → Nat
+  | 0, _ => 0
+  | k + 1, m => if m % 2 = 0 then cancel2 k (m / 2) + 1 else 0
+
+/-- `str(fractions.Fraction(x))` for `x = m * 2^e`: the integer, or `p/q` in lowest terms -/
+def fracText (m e : Int) : String :=
+  if 0 ≤ e then Int.repr (m * 2 ^ e.toNat)
+  else
+    let k := e.natAbs
+    let t := cancel2 k m
+    let p := m / 2 ^ t
+    let q : Nat := 2 ^ (k - t)
+    if q = 1 then Int.repr p else Int.repr p ++ "/" ++ Nat.repr q
+
+/-- the text of the exact value hashed by the number branch of `hash_mutable`:
+`str(Fraction(x))` for finite reals, `repr(complex(x) + 0.0)` otherwise -/
+def numText : NumVal → String
+  | .fin m e => fracText m e
+  | .inf neg => if neg then "(-inf+0j)" else "(inf+0j)"
+  | .cplx _ _ _ _ txt => txt
+  | .nan _ => "(nan+0j)"
 
 def boolKey (b : Bool) : Key := .leaf (.int (if b then 1 else 0))
 
@@ -178,7 +203,8 @@ def boolKey (b : Bool) : Key := .leaf (.int (if b then 1 else 0))
 structure Deriv where
   /-- fix F1: `hash((qualname, hash_mutable(__dict__)))` instead of `hash_mutable(__dict__)` -/
   withClass : Bool
-  /-- fix A: numbers keyed by `(class name, repr)` instead of the builtin numeric hash -/
+  /-- fix A: numbers (incl. `bool`) keyed by `("number", text of the exact value)` instead of the
+  builtin numeric hash -/
   numRepr : Bool
   /-- fix B: arrays keyed by `(dtype.str, shape, tobytes())` instead of `tobytes()` -/
   arrMeta : Bool
@@ -222,9 +248,10 @@ def arrKey (d : Deriv) (dtype : String) (shape : List Nat) (b : List Nat) : Key 
     .tup [strKey dtype, .tup (shape.map fun (n : Nat) => .leaf (.int (pyHashNum (n : Int) 0))), rawKey b]
   else rawKey b
 
-/-- key of a number other than `bool` -/
-def numKey (d : Deriv) (cls repr : String) (v : NumVal) : Key :=
-  if d.numRepr then .tup [strKey cls, strKey repr] else .leaf (pyHashVal v)
+/-- key of a `numbers.Number`: `hash(("number", str(Fraction(x))))` resp. `hash(("number",
+repr(complex(x) + 0.0)))`; equal numbers of different classes share the key -/
+def numKey (d : Deriv) (v : NumVal) : Key :=
+  if d.numRepr then .tup [strKey "number", strKey (numText v)] else .leaf (pyHashVal v)
 
 mutual
 /-- the builtin `hash(obj)` of a hashable object (as used inside the `_cache_hash` methods and
@@ -261,8 +288,8 @@ def hashMutableG (d : Deriv) : PyObj → Key
   | .ndarray dtype shape b => arrKey d dtype shape b
   -- `slice`: `hash((start, stop, step))`
   | .slice a b c => .tup [builtinKey d a, builtinKey d b, builtinKey d c]
-  -- `isinstance(obj, numbers.Number) and not isinstance(obj, bool)`
-  | .num cls repr v => numKey d cls repr v
+  -- `isinstance(obj, numbers.Number)`
+  | .num _ _ v => numKey d v
   -- `hash(obj)` succeeds
   | .none => .leaf (.int pyHashNone)
   | .bool b => boolKey b
@@ -476,7 +503,8 @@ deriving Repr, Inhabited, DecidableEq
 def floatObj (x : FloatSpec) : PyObj := .num x.cls x.repr (.fin x.m x.e)
 /-- a Python `int` (`repr(n)` is the decimal text) -/
 def natObj (n : Nat) : PyObj := .num "int" (Nat.repr n) (.fin (n : Int) 0)
-def boolObj (b : Bool) : PyObj := .bool b
+/-- a Python `bool` -/
+def boolObj (b : Bool) : PyObj := .num "bool" (if b then "True" else "False") (.fin (if b then 1 else 0) 0)
 
 structure GridSpec where
   /-- `self.__class__.__name__` -/
